@@ -136,5 +136,14 @@ def OpState.dbKey (st : OpState) (k ns d : Bytes) : Bytes := Keys.dbKey st.kgc k
 def OpState.timerKey (st : OpState) (k : Bytes) (t : Nat) : Bytes := Keys.timerKey st.kgc k t
 def OpState.owns (st : OpState) (persisted : Bytes) : Bool := Keys.ownsKey st.range persisted
 
+/-- `NewTimerStore(db, keySpace, keyGroupRange, …)`: queue `i` is `NewKeyGroupPriorityQueue(db, KeyGroups()[i], …)`, the
+key group it loads from and persists under -/
+def OpState.timerQueues (st : OpState) : List Nat := st.range.keyGroups
+
+/-- `getPartitionIndex` of the timer store: `keyGroupRange.IndexOf(KeyGroupFromBytes(key[0:2]))` for the timer of `k` at `t`
+(Go computes `int(kg) - Start`, which may be negative for a key the operator does not own; here truncated) -/
+def OpState.timerQueueIndex (st : OpState) (k : Bytes) (t : Nat) : Nat :=
+  Gen.kgIndexOf st.range (Bytes.beNat ((st.timerKey k t).take 2))
+
 end Assembly
 end Rxn
